@@ -140,18 +140,29 @@ def rule_hash_binding(ctx, table, scope_prefixes, cfg='prod-all', only_fns=None,
 
 
 def rule_i2osp_width(ctx, widths=I2OSP_WIDTH, cfg='prod-all'):
-    prog = ctx.prog(cfg)
+    """every I2OSP call reachable (through local helpers) from a tabled function has the width the drafts prescribe for that function;
+    an I2OSP call reachable from no tabled function is reported."""
+    from flow import walk
+    prog, eng = ctx.prog(cfg), ctx.eng(cfg)
+    covered = set()
+    for root, exp in sorted(widths.items()):
+        if root not in prog.bodies:
+            raise AnchorMissing(root)
+        n = 0
+        for fr in walk(eng, root, include_closures=True):
+            if fr.path != root and fr.path in widths:
+                continue        # another tabled root: judged under its own entry
+            for bi, t in fr.body.calls():
+                if callee_matches(t, 'utils::util::bbsplus_utils::i2osp'):
+                    covered.add((fr.path, bi))
+                    w = (t.get('cargs') or ['?'])[0]
+                    yield Ob('RF-C', '%s#i2osp[%d].width' % (root, n), w in exp, 'I2OSP width', '%s L%s' % (fr.body.file(), t['line']),
+                             fact={'width': w, 'in': fr.path.split('::')[-1]}, expected=sorted(exp))
+                    n += 1
     for p, b in sorted(prog.bodies.items()):
         if b.from_expansion:
             continue
-        n = 0
         for bi, t in b.calls():
-            if callee_matches(t, 'utils::util::bbsplus_utils::i2osp'):
-                w = (t.get('cargs') or ['?'])[0]
-                exp = widths.get(p)
-                key = '%s#i2osp[%d].width' % (p, n)
-                n += 1
-                if exp is None:
-                    yield Ob('RF-C', key, False, 'i2osp call in a function without a tabled width', '%s L%s' % (b.file(), t['line']), fact=w, expected='table row')
-                else:
-                    yield Ob('RF-C', key, w in exp, 'I2OSP width', '%s L%s' % (b.file(), t['line']), fact=w, expected=sorted(exp))
+            if callee_matches(t, 'utils::util::bbsplus_utils::i2osp') and (p, bi) not in covered:
+                yield Ob('RF-C', '%s#i2osp-untabled' % p, False, 'I2OSP call not reachable from any function with a tabled width', '%s L%s' % (b.file(), t['line']),
+                         fact=(t.get('cargs') or ['?'])[0], expected='table row')
